@@ -9,7 +9,7 @@
 (* in proportion to kernel weight x the current cell value.                *)
 (*                                                                         *)
 (* A recorded run is  [family, V, r, eps, kw, corpus, mats]  : token /     *)
-(* timed / multiset vectorizer, one directional window of radius r (block 0 = before,       *)
+(* timed / multiset / n-gram vectorizer, one directional window of radius r (block 0 = before,       *)
 (* block 1 = after, column = block * V + token); kw[j] is the kernel       *)
 (* weight at distance j as a small integer numerator (flat 1,1,1 /         *)
 (* harmonic 2,1 / geometric 4,2,1: only ratios matter); mats[k] is         *)
@@ -35,7 +35,7 @@ V == X.V
 ONE == 1000000
 U == 2                       \* record / float32 slack on an input cell, in its units
 TOL == 30                    \* slack on the compared cell (3e-5), as in Trace_EM
-Rows == 1..V
+Rows == 1..Len(X.mats[1])       \* V token rows; for the n-gram family one row per n-gram of X.grams
 Cols == 1..(2 * V)
 \* floor(x * 10^6 / z) for 0 <= x <= z < 2*10^8 without leaving 32-bit integers (long division, one decimal digit per stage)
 RECURSIVE DivR(_, _, _)
@@ -67,17 +67,26 @@ Share(B, a, cx, kw, j) ==
 \* multiset family: a document is a sequence of multisets; the contexts of member q of multiset m are, per block, the other members
 \* of its own multiset (distance 0) and the members of the previous (block 0) / next (block 1) r multisets; kw[k + 1] is the weight
 \* at multiset distance k
+\* n-gram family: rows are the n-grams X.grams (row order of the fitted model), an occurrence ends at position p >= N; the before
+\* block looks left of its first token, the after block right of its last token
 MULTI == X.family = "multi"
-Occs == IF MULTI THEN UNION {UNION {{<<d, m, q>> : q \in DOMAIN X.corpus[d][m]} : m \in DOMAIN X.corpus[d]} : d \in DOMAIN X.corpus}
+NGRAM == X.family = "ngram"
+GramRow(g) == CHOOSE i \in DOMAIN X.grams : X.grams[i] = g
+NgCtx(d, p) == [j \in 1..Max2(0, Min2(X.r, p - X.N)) |-> <<d[p - X.N + 1 - j] + 1, X.kw[j]>>]
+               \o [j \in 1..Max2(0, Min2(X.r, Len(d) - p)) |-> <<V + d[p + j] + 1, X.kw[j]>>]
+Occs == IF NGRAM THEN UNION {{<<d, p>> : p \in X.N..Len(X.corpus[d])} : d \in DOMAIN X.corpus} ELSE
+        IF MULTI THEN UNION {UNION {{<<d, m, q>> : q \in DOMAIN X.corpus[d][m]} : m \in DOMAIN X.corpus[d]} : d \in DOMAIN X.corpus}
         ELSE UNION {{<<d, p>> : p \in DOMAIN X.corpus[d]} : d \in DOMAIN X.corpus}
-Row(o) == IF MULTI THEN X.corpus[o[1]][o[2]][o[3]] + 1 ELSE X.corpus[o[1]][o[2]] + 1
+Row(o) == IF NGRAM THEN GramRow(SubSeq(X.corpus[o[1]], o[2] - X.N + 1, o[2])) ELSE
+          IF MULTI THEN X.corpus[o[1]][o[2]][o[3]] + 1 ELSE X.corpus[o[1]][o[2]] + 1
 GroupCtx(doc, m, q, blk) ==        \* <<column, weight>> of one block of a multiset occurrence
    LET n == IF blk = 0 THEN Min2(X.r, m - 1) ELSE Min2(X.r, Len(doc) - m)
        g(k) == IF blk = 0 THEN m - k ELSE m + k
    IN FlattenSeq([kk \in 1..(n + 1) |->
          SelectSeq([x \in DOMAIN doc[g(kk - 1)] |-> IF kk = 1 /\ x = q THEN <<>> ELSE <<blk * V + doc[g(kk - 1)][x] + 1, X.kw[kk]>>],
                    LAMBDA e : e # <<>>)])
-CWOf(o) == IF MULTI THEN GroupCtx(X.corpus[o[1]], o[2], o[3], 0) \o GroupCtx(X.corpus[o[1]], o[2], o[3], 1)
+CWOf(o) == IF NGRAM THEN NgCtx(X.corpus[o[1]], o[2]) ELSE
+           IF MULTI THEN GroupCtx(X.corpus[o[1]], o[2], o[3], 0) \o GroupCtx(X.corpus[o[1]], o[2], o[3], 1)
            ELSE LET cx == Ctx(X.corpus[o[1]], o[2])  kw == KW(X.corpus[o[1]], o[2]) IN [j \in DOMAIN cx |-> <<cx[j], kw[j]>>]
 \* posterior box (units: 10^-6 of one occurrence's mass, then divided by 8 so that column totals stay small)
 PostBox(B) == [a \in Rows |-> [c \in Cols |->
